@@ -67,6 +67,16 @@ def merge_corpus(tier):
     docs.append(("m", (("a", ("m", (("c", 3), ("a", 9)))),)))
     docs.append(("s", ("x", "y")))
     docs.append(("s", ("y", "z")))
+    # twin nodes: equal values under the same key name in different parents
+    # (a per-path rule must apply to the addressed one only)
+    for hv in (("l", ("x",)), ("l", (1, 2)), ("m", (("k", 1),))):
+        for hw in (("l", ("y",)), ("l", (2, 3)), ("m", (("k", 2),))):
+            if hv[0] != hw[0]:
+                continue
+            docs.append(("m", (("p", ("m", (("h", hv), ("t", 1)))),
+                               ("d", ("m", (("h", hv), ("t", 2)))))))
+            docs.append(("m", (("p", ("m", (("h", hw), ("t", 1)))),
+                               ("d", ("m", (("h", hw), ("t", 2)))))))
     seen = set()
     out = []
     for d in docs:
@@ -87,6 +97,11 @@ def plan(tier):
         LEFTS = docs
         RIGHTS = docs
         POLICIES = pairwise_policies()
+        RULESETS = [None,
+                    {"rules": {"/p/h": "left"}},
+                    {"rules": {"/d/h": "right"}},
+                    {"rules": {"/a": "left"}},
+                    {"keys": {"/a": "v"}}]
     else:
         LEFTS = docs
         RIGHTS = docs
@@ -97,7 +112,10 @@ def plan(tier):
                     {"rules": {"/a": "left"}},
                     {"rules": {"/a": "right"}},
                     {"keys": {"/a": "v"}},
-                    {"keys": {"/": "v"}}]
+                    {"keys": {"/": "v"}},
+                    {"rules": {"/p/h": "left"}},
+                    {"rules": {"/d/h": "right"}},
+                    {"rules": {"/p/h": "unique", "/d": "left"}}]
     bounds = {"left_documents": len(LEFTS), "right_documents": len(RIGHTS),
               "policy_vectors": len(POLICIES), "rule_sets": len(RULESETS),
               "policy_space": "3x4x5x3 = 180" if tier != "quick" else
@@ -178,19 +196,21 @@ def ref_policy(pol, rs):
 
 
 def rules_addressable(rs, rcanon):
-    """[rules]/[keys] paths are resolved in the right-hand document: /a must
-    be a key of a right-hand Hash, / an Array-of-Hashes root."""
+    """[rules]/[keys] paths are resolved in the right-hand document: every
+    step of /a/b must be a key of a right-hand Hash, / an Array-of-Hashes
+    root; a [keys] entry must address an Array-of-Hashes."""
     for section in ("rules", "keys"):
         for path in (rs.get(section) or {}):
-            name = path.strip("/")
-            if not name:
-                if not refmerge.is_aoh(rcanon):
+            names = [x for x in path.strip("/").split("/") if x]
+            node = rcanon
+            for name in names:
+                if node[0] != "m":
                     return False
-            elif rcanon[0] != "m" or name not in [
-                    refmerge.keyname(k) for k, _ in rcanon[1]]:
-                return False
-            elif section == "keys" and not refmerge.is_aoh(
-                    dict((refmerge.keyname(k), v) for k, v in rcanon[1])[name]):
+                kids = dict((refmerge.keyname(k), v) for k, v in node[1])
+                if name not in kids:
+                    return False
+                node = kids[name]
+            if (not names or section == "keys") and not refmerge.is_aoh(node):
                 return False
     return True
 
@@ -200,10 +220,12 @@ def check_merge(st, ldoc, rdoc, lcanon, rcanon, ltext, rtext, shapes, pol, rs):
     st.transitions += 1
     case = {"lhs": ltext, "rhs": rtext, "policies": pol, "config": rs}
     psig = "%(hashes)s/%(arrays)s/%(aoh)s/%(sets)s" % pol
+    if rs and not rules_addressable(rs, rcanon):
+        st.extra["ruleset_not_addressing_rhs_skipped"] += 1
+        st.evaluations -= 1
+        st.transitions -= 1
+        return
     try:
-        if rs and not rules_addressable(rs, rcanon):
-            raise refmerge.Unspecified("rule/key path does not address a "
-                                       "node of the right-hand document")
         exp = ("doc", refmerge.merge(lcanon, rcanon, ref_policy(pol, rs)))
     except refmerge.MergeError as ex:
         exp = ("error", str(ex))
